@@ -3,6 +3,8 @@ package peersim
 // Application side: caller goroutines, listeners, the yield controller.
 
 import (
+	"bytes"
+	"runtime"
 	"sync"
 	"sync/atomic"
 	"time"
@@ -49,8 +51,9 @@ type op struct {
 	inv, ret int64 // logical stamps; ret==0: not returned yet
 	// harness-observed facts at issue time
 	assoc      bool // AssociateConnection had been called
-	estAtIssue bool // OnVerAck had fired
+	estAtIssue bool // OnVerAck had fired and returned (the negotiation goroutine was free to finish)
 	dones      int  // signals observed so far
+	lateDone   bool // the first signal only arrived after the harness unblocked a stuck goroutine
 	doneStep   int
 }
 
@@ -178,12 +181,13 @@ type lsnRecord struct {
 }
 
 type listenerState struct {
-	mu       sync.Mutex
-	app      []lsnRecord // application-message callbacks in order
-	verack   int
-	verackPV uint32
-	version  int
-	sendaddr int
+	mu         sync.Mutex
+	app        []lsnRecord // application-message callbacks in order
+	verack     int
+	verackDone int // OnVerAck callbacks that have returned
+	verackPV   uint32
+	version    int
+	sendaddr   int
 	// slow listener plan (fixed before the peer exists)
 	slowKind  string // "", "app", "read", "write", "version", "verack"
 	slowNth   int    // which call (0-based) sleeps; -1: every call
@@ -296,6 +300,9 @@ func (s *sim) listeners() peer.MessageListeners {
 			s.ls.verackPV = pv
 			s.ls.mu.Unlock()
 			s.maybeSleep("verack")
+			s.ls.mu.Lock()
+			s.ls.verackDone++
+			s.ls.mu.Unlock()
 		},
 		OnSendAddrV2: func(p *peer.Peer, m *wire.MsgSendAddrV2) {
 			s.ls.mu.Lock()
@@ -315,8 +322,9 @@ var yieldSites = []string{
 }
 
 type parked struct {
-	site string
-	ch   chan struct{}
+	site   string
+	ch     chan struct{}
+	reject bool // the parked goroutine is the input handler inside PushRejectMsg
 }
 
 // yielder parks goroutines of the current run at armed sites.
@@ -327,6 +335,10 @@ type yielder struct {
 	hits    map[string]int
 	off     bool
 	parkLog []string // sites at which a goroutine was parked, not yet reported
+	// an input handler waiting in PushRejectMsg(wait) was held between the
+	// Connected() test and the channel send of QueueMessage and released only
+	// after the disconnect had begun
+	rejectRace bool
 }
 
 // current is the yield controller of the run in progress.  The hook function
@@ -352,6 +364,11 @@ func (y *yielder) hit(site string) {
 	}
 	delete(y.armed, site)
 	pk := &parked{site: site, ch: make(chan struct{})}
+	if site == "qm.afterConnected" {
+		buf := make([]byte, 4096)
+		buf = buf[:runtime.Stack(buf, false)]
+		pk.reject = bytes.Contains(buf, []byte("PushRejectMsg")) && bytes.Contains(buf, []byte("inHandler"))
+	}
 	y.parked = append(y.parked, pk)
 	y.parkLog = append(y.parkLog, site)
 	y.mu.Unlock()
@@ -379,22 +396,30 @@ func (y *yielder) nArmed() int {
 }
 
 // release lets parked goroutine i continue and returns its site.
-func (y *yielder) release(i int) string {
+func (y *yielder) release(i int, disconnecting bool) string {
 	y.mu.Lock()
 	pk := y.parked[i]
 	y.parked = append(y.parked[:i], y.parked[i+1:]...)
+	if pk.reject && disconnecting {
+		y.rejectRace = true
+	}
 	y.mu.Unlock()
 	close(pk.ch)
 	return pk.site
 }
 
 // shutdown disarms everything and releases every parked goroutine.
-func (y *yielder) shutdown() {
+func (y *yielder) shutdown(disconnecting bool) {
 	y.mu.Lock()
 	y.off = true
 	y.armed = map[string]bool{}
 	ps := y.parked
 	y.parked = nil
+	for _, pk := range ps {
+		if pk.reject && disconnecting {
+			y.rejectRace = true
+		}
+	}
 	y.mu.Unlock()
 	for _, pk := range ps {
 		close(pk.ch)
